@@ -31,9 +31,8 @@ SupportedTerms == CollectTerms \cup FindTerms \cup {"collect_x", "count", "for_e
 Applicable(ev) ==
   /\ ev.mode # "free"
   /\ ~IsBig(ev.p)
-  /\ ev.p.src \in {"vec", "slice", "range", "iter", "iterx", "deque", "list", "btree"}
+  /\ ev.p.src \in {"vec", "slice", "range", "iter", "iterx", "deque", "list", "btree", "dequeref", "btreeref"}
   /\ (ev.p.cs < 0 \/ (ev.p.cs >= 1 /\ ev.p.cs <= Len(Stages(ev.p))) \/ ev.p.cs = TermStage)
-  /\ EagerStages(ev.p) = {}
   /\ ev.p.term.k \in SupportedTerms
   /\ (Len(Stages(ev.p)) > 0 \/ TermHasClosure(ev.p))
   /\ FinalParams(ev.p).csv < 1000000 /\ FinalParams(ev.p).ntv < 1000000
@@ -43,7 +42,7 @@ Applicable(ev) ==
 \* (skipping to the next program is done one line per step: a recursion over tens of thousands of
 \*  lines is very slow in TLC)
 
-Idle == [active |-> FALSE, run |-> 0]
+Idle == [active |-> FALSE, run |-> 0, gs |-> <<>>, g |-> 0]
 
 TInit ==
   /\ l = 1
@@ -58,14 +57,30 @@ TInit ==
 TProg ==
   /\ IsEv("prog")
   /\ IF Applicable(Ev)
-     THEN /\ LET s == InitState(Ev.p)
+     THEN /\ LET s == InitState(Groups(Ev.p)[1])
              IN  /\ prog' = s.prog /\ pe' = s.pe /\ rc' = s.rc /\ counter' = s.counter /\ gate' = s.gate
                  /\ sp' = s.sp /\ wk' = s.wk /\ bag' = s.bag /\ result' = s.result /\ mon' = s.mon
-          /\ tf' = [active |-> TRUE, run |-> Ev.run]
+          /\ tf' = [active |-> TRUE, run |-> Ev.run, gs |-> Groups(Ev.p), g |-> 1]
           /\ Step1
      ELSE /\ UNCHANGED vars
           /\ tf' = Idle
           /\ Step1
+
+\* the run of the current group is complete and the next event belongs to the next group: the
+\* materialised result becomes the source of the rest of the chain (no event is consumed)
+GroupComplete == \/ sp.pc = "seq"
+                 \/ sp.pc = "join" /\ AllDone /\ ~SomePanicked
+TNextGroup ==
+  /\ l <= Len(Rec)
+  /\ tf.g < Len(tf.gs)
+  /\ GroupComplete
+  /\ \/ Ev.e = "run_begin"
+     \/ Ev.e \in {"call", "te"} /\ InitState(tf.gs[tf.g + 1]).rc.kernel = "seq"
+  /\ LET s == InitState(tf.gs[tf.g + 1])
+     IN  /\ prog' = s.prog /\ pe' = s.pe /\ rc' = s.rc /\ counter' = s.counter /\ gate' = s.gate
+         /\ sp' = s.sp /\ wk' = s.wk /\ bag' = s.bag /\ result' = s.result /\ mon' = s.mon
+  /\ tf' = [tf EXCEPT !.g = @ + 1]
+  /\ UNCHANGED l
 
 \* events that do not change the protocol state
 TStutter ==
@@ -110,7 +125,7 @@ TFirstCall ==
   /\ IsEv("call")
   /\ Ev.a >= 1 /\ Ev.a <= MaxW /\ Ev.s = FirstStage(prog)
   /\ WStart(Ev.a) \/ WStep(Ev.a)
-  /\ wk'[Ev.a].pc = "hold" /\ wk'[Ev.a].cur = Ev.k
+  /\ wk'[Ev.a].pc = "hold" /\ SrcElems(prog)[wk'[Ev.a].cur + 1].k = Ev.k
   /\ Step1 /\ UNCHANGED tf
 
 \* any other closure call must be one the element being evaluated makes
@@ -168,6 +183,7 @@ ResultAgrees(r) ==
 
 TTe ==
   /\ IsEv("te")
+  /\ tf.g = Len(tf.gs)
   /\ Ev.kind # "panic"
   /\ SJoin \/ SSeq
   /\ result'[1] = "ok" /\ ResultAgrees(result'[2])
@@ -184,7 +200,7 @@ TEnd ==
 
 Strict ==
   /\ tf.active
-  /\ \/ TStutter \/ TRunBegin \/ TPreDecide \/ TPreChunk \/ TWBegin \/ TBeforeJoin
+  /\ \/ TNextGroup \/ TStutter \/ TRunBegin \/ TPreDecide \/ TPreChunk \/ TWBegin \/ TBeforeJoin
      \/ TFirstCall \/ TOtherCall \/ TWEnd \/ TWPanic \/ TTe \/ TTePanic \/ TEnd
 
 Reject ==
